@@ -106,7 +106,31 @@ def gen_orc():
             continue
         t, _ = op_decl(op)
         out += t
+    # a 2-byte accumulator declared with a wider C type (as testsuite/test.orc does): the stored value must still be the
+    # 16-bit sum, zero-extended
+    out += '.function f_accw_int\n.accumulator 2 a1 int\n.source 2 s1\naccw a1, s1\n\n'
     return out
+
+
+def gen_unit_accw_int(tier='quick'):
+    """Variant of the bare accw unit for '.accumulator 2 a1 int': derived textually from the regular unit."""
+    u = gen_unit('accw', 'bare', tier)
+    src = open(u.sources[0]).read()
+    rules = [('f_accw ', 'f_accw_int '), ('orc_uint16 * ORC_RESTRICT a1', 'int * ORC_RESTRICT a1'), ('__CPROVER_is_fresh(a1, 2)', '__CPROVER_is_fresh(a1, 4)'),
+             ('__CPROVER_object_upto(a1, 2)', '__CPROVER_object_upto(a1, 4)'), ('(*(unsigned short *)a1)', '((unsigned int)*(int *)a1)'), ('f_accw(', 'f_accw_int(')]
+    for a, b in rules:
+        if a not in src:
+            raise core.ToolError('accw_int derivation: pattern %r not found' % a)
+        src = src.replace(a, b)
+    path = os.path.join(GEN, 'bare_accw_int.c')
+    with open(path, 'w') as f:
+        f.write(src)
+    loops = [dict(l, function='f_accw_int') for l in u.loops]
+    v = core.Unit(name='bare:f_accw_int', sources=[path], entry='harness', enforce='f_accw_int', loops=loops, unwind=u.unwind,
+                  defines=['DISABLE_ORC'], timeout=240, functions=['f_accw_int'],
+                  contract_text='2-byte accumulator declared as int: *a1 == (sum of the source elements) & 0xffff, zero-extended')
+    v.op = 'accw'
+    return v
 
 
 def gen_unit(opname, variant, tier='quick', bounded_n=None):
